@@ -79,7 +79,8 @@ def c11_case(ctx: Ctx, case: dict):
         bad = next((ln for ln in saved.splitlines() if not ctx.lean().call({"op": "parse", "text": ln + "\n"}).get("ok")), "")
         kind = ("constant-condition" if ("Conditional(0," in saved or "Conditional(1," in saved) else "ITE" if "ITE(" in saved else "E" if (" E" in bad or "E*" in bad or "(E" in bad) else "Ne" if "Ne(" in bad
                 else "tilde" if "~" in saved else "complex-constant" if "Symbol 'I' not found" in str(ex)
-                else "complex-infinity" if ("Symbol 'zoo' not found" in str(ex) and divisor_with_relation(rm)) else "other")
+                else "complex-infinity" if ("Symbol 'zoo' not found" in str(ex) and divisor_with_relation(rm))
+                else "atan2" if "atan2(" in saved else "other")
         ctx.violate(f"C11/reload-rejected/{type(ex).__name__}/{kind}", f"the saved file is rejected by the loader: {type(ex).__name__}: {str(ex)[:90]}",
                     case=case, saved=saved)
         return
